@@ -13,8 +13,8 @@ Theorem C41_codec_roundtrip_request_partial :
   forall q : view, req_representable q = true -> child_view q = inproc_view q.
 Proof. exact request_roundtrip. Qed.
 
-(* An outcome reaches the client unchanged when it is representable: the request did not ask for
-   JSON, the body is well-formed UTF-8, every header the service set has exactly one value, and the
+(* An outcome reaches the client unchanged when it is representable (JSON Accept or not, after the
+   repair of the Content-Type header): the body is well-formed UTF-8, every header the service set has exactly one value, and the
    status is neither 401 nor an error status with an empty body. *)
 Theorem C41_codec_roundtrip_response_partial :
   forall o : outcome, resp_representable o = true -> child_wire o = inproc_wire o.
@@ -29,6 +29,14 @@ Theorem C41_caller_kind :
     (authenticated = false -> authn_child authenticated token_presented = 0).
 Proof. intros a b. split; [apply authn_agree | intros ->; reflexivity]. Qed.
 
+(* How w.Write formats a value is decided by the router's reading of Accept in both modes (the
+   writer flags of child_view and inproc_view are both the session's flags), although the router's
+   rule and the literal "application/json" test used for the Content-Type are different rules. *)
+Theorem C41_writer_flags :
+  (forall q, v_wjson (child_view q) = v_wjson (inproc_view q) /\ v_wtext (child_view q) = v_wtext (inproc_view q)) /\
+  (exists vals, fst (router_accepts vals false false) = true /\ literal_json vals = false).
+Proof. split; [intros q; split; reflexivity | exact accept_rules_differ]. Qed.
+
 (* The fields for which the trip is not the identity (each replayed on the real code). *)
 Theorem C41_refuted : ~ C41_statement.
 Proof. intros [_ H]. exact (multi_header_differs (H o_multi)). Qed.
@@ -36,13 +44,13 @@ Proof. intros [_ H]. exact (multi_header_differs (H o_multi)). Qed.
 Theorem C41_refuted_witnesses :
   child_wire o_multi <> inproc_wire o_multi /\        (* a header with two values arrives as one joined value *)
   child_wire o_binary <> inproc_wire o_binary /\      (* bytes that are not UTF-8 arrive as U+FFFD *)
-  child_wire o_json_ct <> inproc_wire o_json_ct /\    (* Accept: application/json: Content-Type is not sent *)
+  child_wire_f false o_json_ct <> inproc_wire o_json_ct /\  (* before the repair: Accept application/json, Content-Type not sent *)
   child_view q_intpart <> inproc_view q_intpart.                  (* a non-string URL part arrives as its text *)
 Proof. repeat split; [exact multi_header_differs | exact binary_body_differs | exact json_content_type_differs | exact int_part_differs]. Qed.
 
 Example C41_nonvacuous :
   req_representable {| v_method := [80;79;83;84]; v_headers := [([88;45;65], [[49]; [50]])]; v_params := [([113], [[195;169]])];
                        v_parts := [([105;100], UStr [52;50])]; v_body := [123;34;226;130;172;34;125];
-                       v_user := [98;111;98]; v_admin := false; v_auth := false; v_bearer := true; v_perms := [[114]]; v_authn := 0 |} = true /\
-  resp_representable {| o_status := 201; o_headers := [([88;45;66], [[121]])]; o_body := [226;130;172]; o_json := false |} = true.
+                       v_user := [98;111;98]; v_admin := false; v_auth := false; v_bearer := true; v_perms := [[114]]; v_authn := 0; v_accjson := true; v_acctext := false; v_wjson := false; v_wtext := true |} = true /\
+  resp_representable {| o_status := 201; o_headers := [([88;45;66], [[121]])]; o_body := [226;130;172]; o_json := true |} = true.
 Proof. vm_compute. auto. Qed.
